@@ -15,6 +15,7 @@ def handlers : List (String × Handler) := [
   ("http", handleHttp),
   ("txbody", handleTxbody),
   ("txbody36", handleTxbody36),
+  ("txbody14", handleTxbody14),
   ("cursor", handleCursor),
   ("interp", handleInterp)
 ]
